@@ -1,0 +1,55 @@
+//go:build verif
+
+package c05hooks
+
+import (
+	"io"
+
+	ocispec "github.com/opencontainers/image-spec/specs-go/v1"
+	"oras.land/oras-go/v2/content"
+	"oras.land/oras-go/v2/internal/cas"
+	"oras.land/oras-go/v2/internal/descriptor"
+	"oras.land/oras-go/v2/internal/ioutil"
+)
+
+// CopyBuffer is ioutil.CopyBuffer.
+func CopyBuffer(dst io.Writer, src io.Reader, buf []byte, desc ocispec.Descriptor) error {
+	return ioutil.CopyBuffer(dst, src, buf, desc)
+}
+
+// Memory is cas.Memory.
+type Memory = cas.Memory
+
+// NewMemory is cas.NewMemory.
+func NewMemory() *Memory { return cas.NewMemory() }
+
+// MemoryEntry is one entry of cas.Memory.Map.
+type MemoryEntry struct {
+	MediaType string
+	Digest    string
+	Size      int64
+	Content   []byte
+}
+
+// MemoryEntries lists the content map of a cas.Memory.
+func MemoryEntries(m *Memory) []MemoryEntry {
+	var out []MemoryEntry
+	for k, v := range m.Map() {
+		var d descriptor.Descriptor = k
+		out = append(out, MemoryEntry{MediaType: d.MediaType, Digest: string(d.Digest), Size: d.Size, Content: v})
+	}
+	return out
+}
+
+// Proxy is cas.Proxy.
+type Proxy = cas.Proxy
+
+// NewProxy is cas.NewProxy.
+func NewProxy(base content.ReadOnlyStorage, cache content.Storage) *Proxy {
+	return cas.NewProxy(base, cache)
+}
+
+// NewProxyWithLimit is cas.NewProxyWithLimit.
+func NewProxyWithLimit(base content.ReadOnlyStorage, cache content.Storage, pushLimit int64) *Proxy {
+	return cas.NewProxyWithLimit(base, cache, pushLimit)
+}
